@@ -93,6 +93,37 @@ def hook_commits():
     except Exception:
         return []
 
+
+# additions made while strengthening the checks against independently seeded
+# changes (DESIGN.md Appendix F.2); appended to the level text
+EXTRA = {
+ "C01": "Generator also covers: the same pattern text matched against a second subject inside the first one's block, m++/m-- used for its value, writes/del reusing an earlier label tuple, `expr || e =~ /re/` conditions, decorator definitions whose next sits under two nested capturing conditions. Compilers are long-lived and pooled (a compile must not depend on what was compiled before).",
+ "C02": "Grid also covers the 5 shift/bitwise operators on Int x Int (5684 cells); the optimising side uses pooled long-lived compilers; a panic on either side is captured as a violation.",
+ "C03": "Further structured families: every binary operator x every pair of 16 hostile constant operands (as value, as condition, with a non-constant sibling); every place a pattern expression can stand x 27 shapes of pattern expression; const fragments defined from fragments (doubling chains, memory watchdog); characters Unicode classes as digits/letters/spaces at every kind of position; every short token lexed as a duration or number (25k inputs quick).",
+ "C04": "Plus a grid of 17 operators and 8 numeric builtins on runtime (captured) operands over all pairs of 16 Int / 14 Float boundary values, and one single-VM history of 3.4k/23k lines with distinct timestamps through strptime.",
+ "C05": "Plus 6 pinned per-line-state shapes (captures behind a short-circuit / in a branch not taken, time register, matched flag, stop); half of the programs may read captures of conditions that were not evaluated.",
+ "C06": "Every fifth set holds two byte-identical program files; interleaved operations include a reload of a name's first owner with another kind.",
+ "C07": "Plus 4 zoned year-less layouts, and 4/60 long histories: one VM, 2.6k/6k lines, ~2k distinct texts in two layouts with revisits 1..2049 distinct texts back.",
+ "C09": "Operations also include RemoveOldestDatum and Store.Gc; 150/6000 burst sequences over a 96-tuple universe (grow to <=96, shrink to <=8).",
+ "C10": "Each store is judged over 4 GC passes with store mutations (older re-stamps, new marks) between passes 2 and 3; timestamps include two beyond the range of a time.Duration (300 and 335 years back).",
+ "C11": "Sizes now 6 A/B + 6 C runs (quick), 60 + 30 (thorough). A/B runs add a 4th program whose expiry clock is driven by settime (key written stamped 1970, then stamped now+10h: must end present with 1 or 2) and a new label set every 25 lines; workload C: every line creates a label set, a third of the lines stalled, reloads back to back, conservation per key; one forced schedule (Store.Gc between a line's dload and inc) documents known finding C11-e, whose classifier needs 'in the store at the line's dload, gone at its end' (instruction hook). Every run is guarded by the stall oracle (goroutine dump: lock waits of >= 2 minutes).",
+ "C12": "Plus cancellation at every k-th look the handler takes at the request context, and a concurrent phase (6 exporters x 400/4000 clean, cancelled and failing attempts against 3 writers x 20k/200k write-locking updates incl. GC), run once on a clean store and once per kind of unrepresentable item, judged by the stall oracle.",
+ "C13": "Plus: a label key literally named prog; pairs of label sets differing only in where a separator-like character sits; a second scrape with the same exporter after every value changed while its timestamp stayed the same; a concurrent phase (2 x 200/4000 scrapes while 2 mutators remove and re-create label sets; a label set no mutation of which overlaps the scrape on the shared logical clock must be listed exactly once with its value; no series twice; the scrape succeeds).",
+ "C14": "13 versions now (also: kind changed on a later declaration, kind clash between two declarations of the program itself).",
+ "C15": "Plus 6k/300k generation runs: reader A goes through 2-4 generations (Finish after each, then reused, as the file streams do at truncation) while a second reader created after A's first Finish interleaves its reads.",
+ "C16": "Three pre-existing-content modes (none / unterminated / terminated and not read from the start).",
+ "C17": "Plus 200/6000 special schedules: cancellation while a single small write (many lines + tail) is still being handed to a slow consumer (everything read must come out); one unixgram sender building a newline-free backlog up to the read-buffer size followed by a large datagram; connections arriving in a storm while the stream is cancelled.",
+ "C18": "Steps also include a directory replaced by a file of the same name (and back) within one step.",
+ "C19": "Every 8th run has a file larger than the read buffer with an LF/CRLF line end placed on the buffer boundary and, half of the time, a line longer than two buffers; two thirds of the runs configure an HTTP listener (unix socket / tcp) as the binary does; the last run(s) are stalled at the hook to last 6.5 s (thorough also 35 s).",
+ "C20": "The last run(s) hold one line for 1.6 s (thorough also 6 s and 31 s) with a reload requested meanwhile; every run is guarded by the stall oracle.",
+ "C21": "Bounds pool includes negative fractions; whole-number observations also go through an Int-typed capture into a third histogram; a fourth histogram's label sets are deleted and re-created (each must start from nothing).",
+ "C22": "A third of the stores are exported after a Prometheus scrape and aborted /varz and /graphite requests with the same exporter; plus a concurrent phase (6 formats x 150/3000 exports against 2 mutators, logical-clock stability oracle: exactly one record with its own value for every label set no mutation of which overlaps the export).",
+ "C23": "Generator also emits literals with a backslash right before their own delimiter and del-after durations that are not a whole number of seconds.",
+ "C24": "Operators also: unused declaration inside a decorator definition, pattern over the length limit only as a whole (literal + const, short literal + const + const); the Runtime sample is a submission history (defective, same bytes again, valid base, defective again).",
+ "C25": "Plus 25/600 shutdown runs (burst of lines, slow programs, wake-up, immediate cancel; lines_total == fan-out count == sum of log_lines_total after Run returned); the refused program clashes on two names in odd runs.",
+ "C26": "Plus histories (exhaustive to length 3/4) over a program that is a symlink to a file outside the directory whose target can be moved away (entry present, unreadable) and back.",
+}
+
 props = [json.loads(l)["id"] for l in open(os.path.join(ROOT,"properties.jsonl"))]
 checks = []
 for pid in props:
@@ -105,7 +136,7 @@ for pid in props:
       "evidence_file": f"/verif/evidence/{pid}.json",
       "replay_cmd_template": f"./check {pid} --replay {{path}}",
       "engine": "harness",
-      "level_claimed": {"category": cat, "text": text, "design_ref": ref},
+      "level_claimed": {"category": cat, "text": text + (" " + EXTRA[pid] if pid in EXTRA else ""), "design_ref": ref},
       "level_note": note,
       "technique": tech,
     })
